@@ -11,7 +11,7 @@ from . import gen_socket as G
 INVS = ["ContractHolds", "AtMostOne", "AbandonedClosed", "NoWedge", "NoGiveUp", "ClosedIsFinal", "QueueBound"]
 
 BASE = dict(MaxConn=3, MaxTask=10, MaxMsg=2, MaxEnv=5, H=2, ConnSubs="FALSE", MsgSubs="FALSE", SubSends="FALSE", QCap=10,
-            F_ENQ="TRUE", F_DRAIN="TRUE", F_ONE="TRUE", F_CLOSE="TRUE", F_CAP="TRUE", Record="FALSE")
+            F_ENQ="TRUE", F_DRAIN="TRUE", F_ONE="TRUE", F_CLOSE="TRUE", F_CAP="TRUE", F_CLOCK="TRUE", Stalls="FALSE", Record="FALSE")
 
 
 def cfg(over=None, kinds="KindsBad", pols="PolMixed", invs=INVS, emit=False):
@@ -42,7 +42,7 @@ def model_check(over=None, kinds="KindsBad", pols="PolMixed", timeout=1500, heap
 
 def simulate_scripts(n, seed, over=None, kinds="KindsAll", pols="PolAll", depth=400, procs=8):
     """TLC -simulate on the recording model: environment scripts of random behaviours."""
-    o = dict(MaxConn=4, MaxTask=18, MaxMsg=4, MaxEnv=10, ConnSubs="TRUE", MsgSubs="TRUE", SubSends="TRUE", Record="TRUE")
+    o = dict(MaxConn=4, MaxTask=18, MaxMsg=4, MaxEnv=10, ConnSubs="TRUE", MsgSubs="TRUE", SubSends="TRUE", Stalls="TRUE", Record="TRUE")
     o.update(over or {})
     per = max(1, (n + procs - 1) // procs)
     c = cfg(o, kinds, pols, invs=["ContractHolds"], emit=True)
@@ -91,8 +91,10 @@ def to_harness(l2, proto, seed=0):
         elif k == "feed":
             b.nframe = o["id"]
             b.feed("good" if o["good"] else "crc")
-        elif k in ("peer_reset", "peer_eof", "arm_fault", "quiesce"):
+        elif k in ("peer_reset", "peer_eof", "arm_fault", "quiesce", "pause", "resume"):
             b.op(op=k)
+        elif k == "arm_pause":
+            b.op(op="arm_pause", nth=1)
     b.heal()
     b.shutdown(k=rng.choice([None, 0, 1, 2, 3]))
     return b.script, {"enc": b.enc, "blockers": [], "proto": proto, "l2": l2}
